@@ -252,17 +252,47 @@ def rule_indent_state(rep: Report, tz, tk) -> None:
 
 
 def rule_quote_escape(rep: Report, tz) -> None:
-	"""CPython ends a string literal at the first closing quote that is not preceded by a backslash — for every prefix, raw strings included
-	(r"\\"" is one token). The scan of Lexer.parse_quote must therefore test the same constant backslash for every quote pair."""
-	r = rep.rule('C13/quote-escape-independent-of-prefix', 'Lexer.parse_quote decides whether a closing quote is escaped by comparing the preceding character with the constant backslash, for every quote pair (raw strings too)', floor=1)
+	"""CPython ends a string literal at the first closing quote that is preceded by an EVEN number of backslashes — for every prefix, raw strings
+	included (r"\\"" is one token, '\\\\' ends at its second quote). The scan of Lexer.parse_quote must therefore (1) test the same constant backslash for
+	every quote pair and (2) decide on the parity of the whole backslash run: a fixed look-back of one or two characters cannot tell an escaped quote
+	(`\\\\\\'`) from a quote after an escaped backslash (`\\\\'`)."""
+	from vlib.fold import enclosing_loop
+	r = rep.rule('C13/quote-escape-independent-of-prefix', 'Lexer.parse_quote decides whether a closing quote is escaped by comparing the preceding characters with the constant backslash, for every quote pair (raw strings too), and ends the scan on the parity of the backslash run', floor=2)
 	f = tz.func('Lexer.parse_quote')
 	fx = FI(f)
-	cmps = [c_ for c_ in nodes(fx, ast.Compare) if len(c_.ops) == 1 and isinstance(c_.ops[0], (ast.Eq, ast.NotEq)) and isinstance(c_.left, ast.Subscript) and unparse(c_.left.value) == f.params()[1]]
-	if not cmps:
+	src = f.params()[1]
+	cmps = [c_ for c_ in nodes(fx, ast.Compare) if len(c_.ops) == 1 and isinstance(c_.ops[0], (ast.Eq, ast.NotEq)) and isinstance(c_.left, ast.Subscript) and unparse(c_.left.value) == src]
+	strips = [c_ for c_ in nodes(fx, ast.Call) if isinstance(c_.func, ast.Attribute) and c_.func.attr in ('rstrip', 'endswith') and c_.args and src in {n.id for n in ast.walk(c_.func.value) if isinstance(n, ast.Name)}]
+	if not cmps and not strips:
 		r.skip('escape-test', f.where, 'parse_quote no longer compares source[<prev>] with an escape character')
-	for c_ in cmps:
-		rhs = c_.comparators[0]
+	for c_ in cmps + strips:
+		rhs = c_.comparators[0] if isinstance(c_, ast.Compare) else c_.args[0]
 		r.check(isinstance(rhs, ast.Constant) and rhs.value == '\\', f'escape-test:{unparse(c_)[:50]}', (TOKENIZER_PY, c_.lineno), f'parse_quote tests the character before a closing quote against `{unparse(rhs)[:80]}`: the escape character must be the backslash for every quote pair; making it depend on the opener (raw strings) ends r"\\"" at the escaped quote, and the rest of the line is lexed as a new string', unparse(c_))
+	# (2) the decision that ends the scan
+	x = X(f)
+	scans = [lp for lp in nodes(x, ast.While) if any(isinstance(c_.func, ast.Attribute) and c_.func.attr in ('find', 'index') for c_ in nodes(lp, ast.Call))]
+	if len(scans) != 1:
+		r.skip('scan-ends-on-parity', f.where, 'parse_quote no longer scans for the closing quote in one while loop around source.find')
+		return
+	scan = scans[0]
+	ends = [b for b in nodes(scan, (ast.Break, ast.Return)) if enclosing_loop(x, b) is scan or isinstance(b, ast.Return)]
+	decided = False
+	for b in ends:
+		known = [(a, p_) for a, p_ in atoms(x, b) if not (isinstance(a, ast.Compare) and isinstance(a.comparators[0], ast.UnaryOp) and unparse(a.comparators[0]) == '-1')]
+		known = [(a, p_) for a, p_ in known if unparse(a) != unparse(scan.test)]
+		if not known:
+			continue  # the `not found` exit
+		parity = any(isinstance(n, ast.BinOp) and ((isinstance(n.op, ast.Mod) and unparse(n.right) == '2') or (isinstance(n.op, ast.BitAnd) and unparse(n.right) == '1')) for a, _ in known for n in ast.walk(a))
+		window = all(all(isinstance(n, (ast.Compare, ast.BoolOp, ast.UnaryOp, ast.Subscript, ast.Name, ast.Constant, ast.BinOp, ast.operator, ast.boolop, ast.unaryop, ast.cmpop, ast.expr_context, ast.Call, ast.Attribute)) for n in ast.walk(a)) and any(isinstance(n, ast.Subscript) and unparse(n.value) == src for n in ast.walk(a)) for a, _ in known)
+		decided = True
+		if parity:
+			r.ok('scan-ends-on-parity', (TOKENIZER_PY, b.lineno))
+		elif window:
+			r.violate('scan-ends-on-parity', (TOKENIZER_PY, b.lineno), f'parse_quote ends the scan under {[(unparse(a), p_) for a, p_ in known]}: a fixed look-back before the closing quote; whether the quote is escaped depends on the parity of the whole backslash run (`\'\\\\\'` ends at its second quote, `\'\\\\\\\'\'` does not), so one of the two is lexed wrongly and the following tokens are swallowed into the string', unparse(b))
+		else:
+			r.skip('scan-ends-on-parity', (TOKENIZER_PY, b.lineno), f'the scan ends under conditions this rule does not model: {[(unparse(a), p_) for a, p_ in known]}')
+	if not decided:
+		r.skip('scan-ends-on-parity', f.where, 'no conditional end of the scan found')
 
 
 def rule_source_map(rep: Report, tk) -> None:
